@@ -198,6 +198,52 @@ def dep_desc(rnd: random.Random) -> dict[str, Any]:
     return d
 
 
+def ref_siblings(ref: str) -> list[str]:
+    """references that poetry's own source comparison relates to `ref` (one a prefix of the other) or nearly so"""
+    out = [ref + ".1", ref + "/1.x", ref + "0", ref[:-1] if len(ref) > 1 else ref + "b", ref.upper() if ref.upper() != ref else ref.lower()]
+    if len(ref) >= 12:
+        out.append(ref[:7])
+    return [r for r in out if r and r != ref]
+
+
+def siblings(rnd: random.Random, d: dict[str, Any], n: int = 4) -> list[dict[str, Any]]:
+    """descriptions that differ from `d` in ONE field only, chosen among the fields poetry's `==`/`hash` of a dependency
+    or of its parts ignores or relates loosely (reference prefixes, marker, extras, membership in extras, python range,
+    subdirectory, equal-but-differently-written versions): rendered one after the other in one process they expose any
+    state kept between calls (a memo keyed too coarsely, a shared mutable default)."""
+    out: list[dict[str, Any]] = []
+    for _ in range(n):
+        v = dict(d)
+        k = rnd.random()
+        if d["kind"] == "vcs" and k < 0.45:
+            which = next((w for w in ("branch", "tag", "rev") if d.get(w)), None)
+            if which is None:
+                v[rnd.choice(["branch", "tag", "rev"])] = rnd.choice(REVS)
+            elif rnd.random() < 0.75:
+                v[which] = rnd.choice(ref_siblings(d[which]))
+            else:
+                v[which] = None
+                v[rnd.choice([w for w in ("branch", "tag", "rev") if w != which])] = d[which]
+        elif d["kind"] in ("vcs", "url") and k < 0.6:
+            v["directory"] = rnd.choice([x for x in SUBDIRS + [None] if x != d.get("directory")])
+        elif d["kind"] == "registry" and k < 0.45:
+            c = d["constraint"]
+            c2 = re.sub(r"(\d+\.\d+)(?![\d.*])", r"\1.0", c, count=1)
+            v["constraint"] = c2 if c2 != c and rnd.random() < 0.5 else (constraint(rnd, poetry_ops=True) or "*")
+            v["text_constraint"] = constraint(rnd) if rnd.random() < 0.5 else d.get("text_constraint", "")
+        elif k < 0.75:
+            v["marker"] = marker(rnd)
+            v["in_extras"] = [] if "extra" in v["marker"] else d["in_extras"]
+        elif k < 0.85:
+            v["extras"] = extras(rnd)
+        elif k < 0.93:
+            v["python"] = rnd.choice(PY_RANGES + [None])
+        else:
+            v["in_extras"] = rnd.sample(["a", "b", "foo-bar", "c"], rnd.choice([1, 2])) if "extra" not in d["marker"] else []
+        out.append(v)
+    return out
+
+
 def ws(rnd: random.Random) -> str:
     return rnd.choice(["", "", " ", " ", "  ", "\t", " \t"])
 
